@@ -17,7 +17,7 @@ import (
 func init() {
 	mon.Register(&mon.Prop{
 		ID: "C01", Level: "exploration",
-		Rule: "files laid out by the harness's independent GenBank writer from abstract records: sequence lengths 1..3000 plus the boundary lengths 1, 9, 10, 11, 59..61, 99..101, 999..1001 (thorough: up to 10^5), molecule types DNA/mRNA/tRNA/rRNA x topology linear/circular/none x 18 divisions, lower-case locus names, 0..40 features incl. features without qualifiers and multi-line locations, qualifier values over printable ASCII without the double quote ('/' and '=' with raised probability, also as first character of a wrapped line), flags, numbers and hard-wrapped /translation, 0..5 references incl. REMARK, 0..3 extra keyword blocks, 1..5 records per file, with/without final newline, with/without the 10-line header, wrap width 60..79; entry points Parse, ParseMulti, ParseFlat and the Read* wrappers (temp files, gzip); non-trivial = the file contains a feature, a reference or a wrapped block; distinct by hash of the file",
+		Rule: "files laid out by the harness's independent GenBank writer from abstract records: sequence lengths 1..3000 plus the boundary lengths 1, 9, 10, 11, 59..61, 99..101, 999..1001 (thorough: up to 10^5), molecule types DNA/mRNA/tRNA/rRNA x topology linear/circular/none x 18 divisions, lower-case locus names (some holding a molecule-type word, a topology word inside a longer word or a date), 0..40 features incl. features without qualifiers and multi-line locations, qualifier values over printable ASCII without the double quote ('/' and '=' with raised probability, also as first character of a wrapped line), flags, numbers and hard-wrapped /translation, 0..5 references incl. REMARK, 0..3 extra keyword blocks, 1..5 records per file, with/without final newline, with/without the 10-line header, wrap width 60..79; entry points Parse, ParseMulti, ParseFlat and the Read* wrappers (temp files, gzip); non-trivial = the file contains a feature, a reference or a wrapped block; distinct by hash of the file",
 		Assumptions: []string{
 			"oracle: the abstract record itself; the writer follows the GenBank release-notes layout (keyword cols 1-12, data from col 13, sub-keywords at col 3/4, feature key col 6, location/qualifiers col 22, 60-base ORIGIN lines) and wraps text at blanks only, so re-joining wrapped lines with one blank is exact",
 			"harness self-check on every file: the harness's own column-based reader recovers the abstract record from the written file",
